@@ -14,9 +14,6 @@ Inductive lexres :=
 | LexErr               (* Go returns (nil | partial, err); callers only look at err *)
 | LexFuel.             (* model artefact: fuel exhausted (excluded by tokenize_fuel) *)
 
-Definition hd_is (c : N) (s : bytes) : bool :=
-  match s with d :: _ => d =? c | [] => false end.
-
 (* strings.ReplaceAll(source, CRLF, LF) *)
 Fixpoint replace_crlf (s : bytes) : bytes :=
   match s with
